@@ -387,7 +387,27 @@ fn variant(rng: &mut Rng, s: &str) -> String {
         }
         n
     };
-    match rng.below(12) {
+    match rng.below(15) {
+        // a code point "twin": one character with one of bits 8..20 flipped — what a table or memo
+        // indexed by a truncated or masked code point (cp & 0xFFFF, cp % 1024, 20 bits of 21) confuses
+        12..=14 if !chars.is_empty() => {
+            let mut v = chars.clone();
+            let i = rng.usize_below(v.len());
+            let c = v[i] as u32;
+            let mut done = false;
+            for _ in 0..8 {
+                let bit = 8 + rng.below(13) as u32;
+                if let Some(t) = char::from_u32(c ^ (1 << bit)) {
+                    v[i] = t;
+                    done = true;
+                    break;
+                }
+            }
+            if !done {
+                v[i] = same_width(v[i], rng);
+            }
+            v.into_iter().collect()
+        }
         0 => s.to_uppercase(),
         1 => s.to_lowercase(),
         2 => format!(" {} ", s),
@@ -537,7 +557,7 @@ pub fn gen_phased_workload(rng: &mut Rng, nthreads: usize, phases: usize) -> Wor
 /// evaluates the probe set again. Anything the library accumulates across calls — counters,
 /// adaptive fast paths, caches that fill up, sticky error flags — shows as a probe whose answer
 /// changed, or as a traffic call answered differently from its earlier self.
-pub const SOAK_TRAFFIC: [&str; 6] = ["ascii_identifiers", "ascii_with_spaces", "mostly_rejected", "one_input_repeated", "mixed_unicode", "rtl_and_digits"];
+pub const SOAK_TRAFFIC: [&str; 7] = ["ascii_identifiers", "ascii_with_spaces", "mostly_rejected", "one_input_repeated", "mixed_unicode", "rtl_and_digits", "many_distinct_inputs"];
 
 pub fn gen_soak_workload(rng: &mut Rng, k: usize, traffic: usize, two_threads: bool) -> Workload {
     let mut pool: Vec<String> = vec![];
@@ -559,7 +579,8 @@ pub fn gen_soak_workload(rng: &mut Rng, k: usize, traffic: usize, two_threads: b
     // ---- traffic inputs
     let names = ["alice", "bob", "carol", "dave", "erin", "frank", "grace", "heidi", "ivan", "judy", "mallory", "oscar", "peggy", "trent", "victor", "walter"];
     let tstart = pool.len();
-    let ntraffic = if traffic == 3 { 1 } else { 48 };
+    // "many distinct inputs": as many different strings as a bounded cache can be asked to hold
+    let ntraffic = if traffic == 3 { 1 } else if traffic == 6 { (k / 2).clamp(300, 40_000) } else { 48 };
     for i in 0..ntraffic {
         let n = names[rng.usize_below(names.len())];
         let m = names[rng.usize_below(names.len())];
@@ -569,7 +590,8 @@ pub fn gen_soak_workload(rng: &mut Rng, k: usize, traffic: usize, two_threads: b
             2 => if i % 2 == 0 { format!("{}\u{0}", n) } else { format!("{} {}\t", n, m) },
             3 => n.to_string(),
             4 => gen_string(rng, &all),
-            _ => gen_string(rng, &[8, 9, 0]),
+            5 => gen_string(rng, &[8, 9, 0]),
+            _ => match i % 5 { 0 => format!("{}{}", n, i), 1 => format!("{} {}", m, i), 2 => format!("{}{}", &n[..1].to_uppercase(), i), 3 => format!("{}\u{e9}{}", n, i), _ => format!("u{}", i) },
         };
         pool.push(s);
     }
@@ -595,6 +617,7 @@ pub fn gen_soak_workload(rng: &mut Rng, k: usize, traffic: usize, two_threads: b
             .map(|_| {
                 let exotic = rng.chance(1, 16);
                 let a = if exotic { xstart + rng.usize_below(8) } else { tstart + rng.usize_below(ntraffic) };
+                let _ = &a;
                 let profile = if rng.chance(7, 8) { dominant } else { rng.below(4) as u8 };
                 let kind = match rng.below(8) { 0 => 0, 7 => 2, _ => 1 };
                 let b = if kind == 2 { tstart + rng.usize_below(ntraffic) } else { 0 };
